@@ -65,11 +65,13 @@ def cmd_indirection(ctx):
 
 
 def check(ctx):
-    ctx.rule('ESC-NINJA', 'for every site where NinjaFile/Writer emits '
-             'script-derived text, every Syntax member that reaches the site '
-             'escapes every Ninja metacharacter of that lexical context')
-    ctx.rule('SYNTAX-POSITION', 'paths on build lines are written with '
-             'Syntax.output/input, variable values with Syntax.shell/clean')
+    ctx.rule('ESC-NINJA', 'every Syntax member escapes every Ninja '
+             'metacharacter of the lexical contexts it is designed for '
+             '(shell/clean: variable values); keys are '
+             'context|member|character')
+    ctx.rule('SYNTAX-POSITION', 'value flow from NinjaFile.write through '
+             'its helpers: rule commands, build/global variables are written '
+             'with Syntax.shell/clean')
     ctx.not_decided += [
         'that sh un-quoting o ninja $-evaluation o quote is the identity for '
         'every string', 'Windows cmd /s /c wrapping (posix assumption)']
